@@ -65,7 +65,8 @@ type ops struct {
 	neg   func(a any) any // nil when the package has no Neg for the group
 	smul  func(a any, k *big.Int) any
 	enc   func(a any) []byte
-	extra []ctor // further constructions of element i, checked against the model once
+	extra []ctor               // further constructions of element i, checked against the model once
+	sbm   func(k *big.Int) any // ScalarBaseMult (nil for GT)
 	// model side
 	mBase func(k *big.Int) []byte // canonical encoding of k*base
 	mAdd  func(x, y []byte) []byte
@@ -171,6 +172,7 @@ func run(c *vf.Ctx) {
 		smul:  func(a any, k *big.Int) any { return new(bn256.G1).ScalarMult(a.(*bn256.G1), k) },
 		enc:   func(a any) []byte { return a.(*bn256.G1).Marshal() },
 		extra: []ctor{{"ScalarBaseMult(k)", func(i int) any { return new(bn256.G1).ScalarBaseMult(elems[i].k) }}},
+		sbm:   func(k *big.Int) any { return new(bn256.G1).ScalarBaseMult(k) },
 		mBase: func(k *big.Int) []byte { return ref.G1Gen.Mul(k).Encode() },
 		mAdd:  func(x, y []byte) []byte { return decG1(x).Add(decG1(y)).Encode() },
 		mNeg:  func(x []byte) []byte { return decG1(x).Neg().Encode() },
@@ -198,6 +200,7 @@ func run(c *vf.Ctx) {
 		smul:  func(a any, k *big.Int) any { return new(bn256.G2).ScalarMult(a.(*bn256.G2), k) },
 		enc:   func(a any) []byte { return a.(*bn256.G2).Marshal() },
 		extra: []ctor{{"ScalarBaseMult(k)", func(i int) any { return new(bn256.G2).ScalarBaseMult(elems[i].k) }}},
+		sbm:   func(k *big.Int) any { return new(bn256.G2).ScalarBaseMult(k) },
 		mBase: func(k *big.Int) []byte { return g2gen.Mul(k).Encode() },
 		mAdd:  func(x, y []byte) []byte { return decG2(x).Add(decG2(y)).Encode() },
 		mNeg:  func(x []byte) []byte { return decG2(x).Neg().Encode() },
@@ -438,6 +441,20 @@ func groupLaws(c *vf.Ctx, g *ops, scalars []scalar) {
 			}
 		})
 	})
+	// 4b. ScalarBaseMult over the whole scalar grid (element index 1 is the generator)
+	if g.sbm != nil {
+		c.ParallelFor(ns, func(s int) {
+			k := scalars[s].k
+			what := fmt.Sprintf("%s ScalarBaseMult(%s)", g.name, scalars[s].name)
+			protect(c, g.name+".ScalarBaseMult", what, func() {
+				c.Eval(1)
+				c.Nontrivial("sbm|" + what)
+				if got := g.enc(g.sbm(k)); !bytes.Equal(got, mulTab[1][s]) {
+					c.Violation(negClass(k.Sign() < 0, g.name, "ScalarBaseMult differs from the model"), map[string]any{"case": what, "got": vf.Hex8(got), "want": vf.Hex8(mulTab[1][s])})
+				}
+			})
+		})
+	}
 	for i := range realMul {
 		for s := range realMul[i] {
 			if realMul[i][s] == nil {
